@@ -306,6 +306,26 @@ def rule_glue(repo, rule):
     sub = m.functions.get("subqap.subqap_.subqap__")
     if sub is None:
         raise AnalysisError("subqap__ not found")
+    # what is handed to the user's function is not trusted afterwards: the wrapped function may mutate its (list) arguments
+    # in place, so the structures passed to it must not be read again to decide what is glued
+    fncalls = [n for n in ast.walk(sub.node) if isinstance(n, ast.Call) and norm(n.func) == "fn" and _owner(n) is sub.node]
+    if fncalls:
+        fc_ = fncalls[0]
+        passed = {x.id for a_ in list(fc_.args) + [k.value for k in fc_.keywords] for x in ast.walk(a_) if isinstance(x, ast.Name)}
+        passed -= {"kwargs"}
+        order_ = {id(x): i for i, x in enumerate(ast.walk(sub.node))}
+        stmt_of = fc_
+        while getattr(stmt_of, "_parent", None) is not None and not isinstance(stmt_of, ast.stmt):
+            stmt_of = stmt_of._parent
+        later = [x for st_ in sub.node.body[sub.node.body.index(stmt_of) + 1:] if stmt_of in sub.node.body for x in ast.walk(st_)
+                 if isinstance(x, ast.Name) and isinstance(x.ctx, ast.Load) and x.id in passed]
+        if later:
+            rule.violation(sub.loc(later[0]), sub.fq, "`%s` is passed to the wrapped function and read again afterwards" % later[0].id,
+                           "the structure handed to the sub-circuit function is read after the call to pair caller and callee wires: "
+                           "a function that mutates a list argument in place changes which wires are paired (or how many)",
+                           "glue/escaped/%s" % later[0].id)
+        else:
+            rule.ok(sub.loc(fc_), sub.fq, norm(fc_)[:80], "nothing passed to the wrapped function is read after the call")
     # the copy helpers are whatever callables subqap__ hands to for_each_in: nested closures, module-level functions,
     # or bound methods `obj.meth` of a local collector object `obj = C()`
     closures = {}
